@@ -4,7 +4,8 @@
      holm_i = max over {j | p_j <= p_i} of min(1, #{k | p_k >= p_j} p_j)
      bh_i   = min over {j | p_j >= p_i} of min(1, n p_j / #{k | p_k <= p_j})
    which are the step-down / step-up formulas of the property text evaluated along ANY sorting order. *)
-From PV Require Import Lib.Base Model.Adjust Proofs.AdjustProofs Proofs.RunningProofs.
+From PV Require Import Lib.Base Model.Adjust Proofs.AdjustProofs Proofs.RunningProofs Proofs.AdjustRelabel.
+From Coq Require Import Permutation.
 Open Scope Q_scope.
 
 (* the model of the code -- min-rank / max-rank multipliers, running maximum along the argsort order (Holm),
@@ -45,6 +46,16 @@ Proof.
   try (apply bh_monotone; rewrite E; apply Qle_refl).
 Qed.
 Print Assumptions C11_ties_equal.
+
+(* relabelling the hypotheses permutes the result: if p' is any rearrangement of p (each argsorted in any
+   admissible way), the same p-value receives the same adjusted value wherever it sits, for all three methods *)
+Theorem C11_relabelling_permutes_the_result : forall p p' ord ord', Permutation p p' ->
+  is_sorting_perm p ord = true -> is_sorting_perm p' ord' = true -> (forall y, In y p -> 0 <= y) ->
+  forall j j', (j < length p)%nat -> (j' < length p')%nat -> nth j p 0 == nth j' p' 0 ->
+  forall m, m <> Unknown ->
+  exists l l', adjust_p p ord m = Ok l /\ adjust_p p' ord' m = Ok l' /\ nth j l 0 == nth j' l' 0.
+Proof. exact adjust_p_relabel. Qed.
+Print Assumptions C11_relabelling_permutes_the_result.
 
 Theorem C11_unknown_method_rejected : forall p ord, adjust_p p ord Unknown = Err ValueError.
 Proof. intros p ord. reflexivity. Qed.
